@@ -33,6 +33,16 @@ def main():
     rc, out = sh("git -C %s status --short" % REPO)
     assert not out.strip(), REPO + " is not clean: " + out
     for name in names:
+        if name.startswith("CLEAN-"):
+            # no change applied: the check must stay silent (recorded, not part of the table)
+            c = name.split("-")[1]
+            t0 = time.time()
+            rc, out = sh("cd %s && ./check %s --tier quick" % (ROOT, c))
+            viol = [l for l in out.split("\n") if l.startswith("VIOLATION") or "FAIL[" in l]
+            results[name] = dict(clean=True, exit=rc, alarms=viol[:5], wall_s=round(time.time() - t0))
+            print(name, "exit", rc, viol[:2], flush=True)
+            json.dump(results, open(resf, "w"), indent=1)
+            continue
         patch = os.path.join(sd, name, "patch.diff")
         rc, out = sh("git -C %s apply --check %s" % (REPO, patch))
         if rc:
@@ -60,6 +70,8 @@ def main():
     lines = ["| seeded change | breaks | what it needs | caught by (quick check) | how |", "|---|---|---|---|---|"]
     for name in sorted(results):
         e = results[name]
+        if e.get("clean"):
+            continue
         meta = {}
         try:
             meta = json.load(open(os.path.join(sd, name, "meta.json")))
